@@ -187,6 +187,11 @@ fn __verif_n_c19_class_published_equals_direct() {
     let cls = classes();
     for (name, class) in &cls {
         let stem = name.trim_end_matches(".contract_class.json");
+        // only the `<file>__<contract>` pairs are written by one and the same test of the repository
+        // (same compilation); a bare `<file>.sierra` next to a `<file>.contract_class.json` is the
+        // output of a different test with a different configuration - not "the compiler's output" of
+        // that class
+        if !stem.contains("__") { continue; }
         let Ok(text) = std::fs::read_to_string(dir.join(format!("{stem}.sierra"))) else { continue };
         let r = catch_unwind(AssertUnwindSafe(|| -> Option<String> {
             let parsed = match ProgramParser::new().parse(&text) { Ok(p) => p, Err(_) => return Some("the printed Sierra program does not parse".into()) };
@@ -198,9 +203,16 @@ fn __verif_n_c19_class_published_equals_direct() {
                 Ok(a) => a, Err(e) => return Some(format!("the compiler's own output does not compile directly: {e}")) };
             if a != c { return Some("the class compiled from the published felts differs from the one compiled directly from the compiler's output".into()); }
             let again = match ContractClass::new(&direct, class.entry_points_by_type.clone(), None, Default::default()) { Ok(k) => k, Err(e) => return Some(format!("the compiler's output cannot be published: {e}")) };
+            // publish under the versions the checked-in class was published with (the compilation is
+            // version dependent: segmentation, solvers)
+            let mut again = again;
+            for i in 0..6.min(class.sierra_program.len()).min(again.sierra_program.len()) { again.sierra_program[i] = class.sierra_program[i].clone(); }
             let back = match again.extract_sierra_program(false) { Ok(x) => x, Err(e) => return Some(format!("the freshly published class cannot be read back: {e}")) };
             let b = match CasmContractClass::from_contract_class(again, back, false, usize::MAX) { Ok(b) => b, Err(e) => return Some(format!("the freshly published class does not compile: {e}")) };
-            if a != b { return Some("publishing the compiler's output (felt serialization) and reading it back changes the compiled class".into()); }
+            if a != b {
+                let what = if a.bytecode != b.bytecode { "bytecode" } else if a.hints != b.hints { "hints" } else if a.entry_points_by_type != b.entry_points_by_type { "entry points" } else if a.bytecode_segment_lengths != b.bytecode_segment_lengths { "segment lengths" } else { "another field" };
+                return Some(format!("publishing the compiler's output (felt serialization) and reading it back changes the compiled class ({what} differ)"));
+            }
             None
         }));
         cases += 1;
